@@ -64,64 +64,71 @@ MinI(a, b) == IF a <= b THEN a ELSE b
 (* well-formedness grammar of one value.  Containers whose count is 0 may  *)
 (* carry any element type code (no element is ever read).                  *)
 (***************************************************************************)
-RECURSIVE SkipD(_, _, _, _), SkipElems(_, _, _, _, _, _, _), SkipPairs(_, _, _, _, _, _, _, _),
-          SkipFields(_, _, _, _, _)
+RECURSIVE SkipD(_, _, _, _), SkipElems(_, _, _, _, _, _, _, _), SkipPairs(_, _, _, _, _, _, _, _, _),
+          SkipFields(_, _, _, _, _, _)
 
+(***************************************************************************)
+(* The third component of the result is TRUE when the value is "dubious":  *)
+(* it contains an EMPTY container whose element / key / value type code is *)
+(* not a legal type.  No element is read, so a decoder may or may not look *)
+(* at the code: both acceptance and an error are allowed for such input.   *)
+(***************************************************************************)
 SkipStr(b, i) ==
   IF Remain(b, i) < 4 THEN -1
   ELSE LET l == S32(b, i) IN
        IF l < 0 \/ l > Remain(b, i) - 4 THEN -1 ELSE 4 + l
 
 \* n elements of wire type wt from position i; acc = bytes consumed so far, md = max depth
-SkipElems(wt, b, i, n, d, acc, md) ==
-  IF n = 0 THEN <<acc, md>>
+SkipElems(wt, b, i, n, d, acc, md, q) ==
+  IF n = 0 THEN <<acc, md, q>>
   ELSE LET r == SkipD(wt, b, i, d) IN
-       IF r[1] < 0 THEN r ELSE SkipElems(wt, b, i + r[1], n - 1, d, acc + r[1], MaxI(md, r[2]))
+       IF r[1] < 0 THEN r ELSE SkipElems(wt, b, i + r[1], n - 1, d, acc + r[1], MaxI(md, r[2]), q \/ r[3])
 
-SkipPairs(kt, vt, b, i, n, d, acc, md) ==
-  IF n = 0 THEN <<acc, md>>
+SkipPairs(kt, vt, b, i, n, d, acc, md, q) ==
+  IF n = 0 THEN <<acc, md, q>>
   ELSE LET rk == SkipD(kt, b, i, d) IN
        IF rk[1] < 0 THEN rk
        ELSE LET rv == SkipD(vt, b, i + rk[1], d) IN
             IF rv[1] < 0 THEN rv
             ELSE SkipPairs(kt, vt, b, i + rk[1] + rv[1], n - 1, d, acc + rk[1] + rv[1],
-                           MaxI(md, MaxI(rk[2], rv[2])))
+                           MaxI(md, MaxI(rk[2], rv[2])), q \/ rk[3] \/ rv[3])
 
 \* fields of a struct from position i until STOP
-SkipFields(b, i, d, acc, md) ==
-  IF Remain(b, i) < 1 THEN <<-1, 0>>
-  ELSE IF b[i] = TSTOP THEN <<acc + 1, md>>
-  ELSE IF Remain(b, i) < 3 THEN <<-1, 0>>
+SkipFields(b, i, d, acc, md, q) ==
+  IF Remain(b, i) < 1 THEN <<-1, 0, FALSE>>
+  ELSE IF b[i] = TSTOP THEN <<acc + 1, md, q>>
+  ELSE IF Remain(b, i) < 3 THEN <<-1, 0, FALSE>>
   ELSE LET r == SkipD(b[i], b, i + 3, d) IN
-       IF r[1] < 0 THEN r ELSE SkipFields(b, i + 3 + r[1], d, acc + 3 + r[1], MaxI(md, r[2]))
+       IF r[1] < 0 THEN r ELSE SkipFields(b, i + 3 + r[1], d, acc + 3 + r[1], MaxI(md, r[2]), q \/ r[3])
 
-Plus1(r) == IF r[1] < 0 THEN r ELSE <<r[1], r[2] + 1>>
+Plus1(r) == IF r[1] < 0 THEN r ELSE <<r[1], r[2] + 1, r[3]>>
+SBad == <<-1, 0, FALSE>>
 
 SkipD(wt, b, i, d) ==
-  IF wt \notin LegalTypes THEN <<-1, 0>>
-  ELSE IF d <= 0 THEN <<-2, 0>>
-  ELSE IF FixedW(wt) > 0 THEN (IF Remain(b, i) < FixedW(wt) THEN <<-1, 0>> ELSE <<FixedW(wt), 0>>)
-  ELSE IF wt = TSTRING THEN <<SkipStr(b, i), 0>>
-  ELSE IF wt = TSTRUCT THEN Plus1(SkipFields(b, i, d - 1, 0, 0))
+  IF wt \notin LegalTypes THEN SBad
+  ELSE IF d <= 0 THEN <<-2, 0, FALSE>>
+  ELSE IF FixedW(wt) > 0 THEN (IF Remain(b, i) < FixedW(wt) THEN SBad ELSE <<FixedW(wt), 0, FALSE>>)
+  ELSE IF wt = TSTRING THEN <<SkipStr(b, i), 0, FALSE>>
+  ELSE IF wt = TSTRUCT THEN Plus1(SkipFields(b, i, d - 1, 0, 0, FALSE))
   ELSE IF wt = TMAP THEN
-       IF Remain(b, i) < 6 THEN <<-1, 0>>
+       IF Remain(b, i) < 6 THEN SBad
        ELSE LET n == S32(b, i + 2) IN
-            IF n < 0 THEN <<-1, 0>>
-            ELSE IF n = 0 THEN <<6, 1>>
+            IF n < 0 THEN SBad
+            ELSE IF n = 0 THEN <<6, 1, b[i] \notin LegalTypes \/ b[i + 1] \notin LegalTypes>>
             ELSE IF FixedW(b[i]) > 0 /\ FixedW(b[i + 1]) > 0 THEN
-                 (IF n > (Remain(b, i) - 6) \div (FixedW(b[i]) + FixedW(b[i + 1])) THEN <<-1, 0>>
-                  ELSE <<6 + n * (FixedW(b[i]) + FixedW(b[i + 1])), 1>>)
-            ELSE IF n > Remain(b, i) - 6 THEN <<-1, 0>>   \* every pair needs >= 2 bytes
-            ELSE Plus1(SkipPairs(b[i], b[i + 1], b, i + 6, n, d - 1, 6, 0))
+                 (IF n > (Remain(b, i) - 6) \div (FixedW(b[i]) + FixedW(b[i + 1])) THEN SBad
+                  ELSE <<6 + n * (FixedW(b[i]) + FixedW(b[i + 1])), 1, FALSE>>)
+            ELSE IF n > Remain(b, i) - 6 THEN SBad   \* every pair needs >= 2 bytes
+            ELSE Plus1(SkipPairs(b[i], b[i + 1], b, i + 6, n, d - 1, 6, 0, FALSE))
   ELSE \* list or set
-       IF Remain(b, i) < 5 THEN <<-1, 0>>
+       IF Remain(b, i) < 5 THEN SBad
        ELSE LET n == S32(b, i + 1) IN
-            IF n < 0 THEN <<-1, 0>>
-            ELSE IF n = 0 THEN <<5, 1>>
+            IF n < 0 THEN SBad
+            ELSE IF n = 0 THEN <<5, 1, b[i] \notin LegalTypes>>
             ELSE IF FixedW(b[i]) > 0 THEN
-                 (IF n > (Remain(b, i) - 5) \div FixedW(b[i]) THEN <<-1, 0>> ELSE <<5 + n * FixedW(b[i]), 1>>)
-            ELSE IF n > Remain(b, i) - 5 THEN <<-1, 0>>
-            ELSE Plus1(SkipElems(b[i], b, i + 5, n, d - 1, 5, 0))
+                 (IF n > (Remain(b, i) - 5) \div FixedW(b[i]) THEN SBad ELSE <<5 + n * FixedW(b[i]), 1, FALSE>>)
+            ELSE IF n > Remain(b, i) - 5 THEN SBad
+            ELSE Plus1(SkipElems(b[i], b, i + 5, n, d - 1, 5, 0, FALSE))
 
 Skip(wt, b, i, d) == SkipD(wt, b, i, d)[1]
 
